@@ -1011,7 +1011,7 @@ def run(ctx):
     if rc != 0:
         ctx.fail('gen:compile', 'generated traces do not compile: ' + err[-800:], no_input=True)
     else:
-        for f in ('C18_a', 'C18_b', 'C18_c'):
+        for f in ('C18_a', 'C18_b', 'C18_c', 'C18_series'):
             ctx.prove(f'theories/Props/{f}.v')
         with ctx.timed('correspond'):
             noops = [t.name for t in g.traces if t.term is not None and not uses_ops(t.term)]
